@@ -54,8 +54,11 @@ def generate(R, tier):
             spec["mf"] = True
         if R.random() < 0.03 and spec["v"] == 4:
             spec["frag"] = R.choice([1, 185, 8191])
-        spec["sport"] = R.choice([0, 1, 80, 65535, R.randrange(65536)])
-        spec["dport"] = R.choice([0, 1, 443, 65535, R.randrange(65536)])
+        if spec.get("dport") != 53:         # (port 53 + a DNS payload: dissected by Scapy as a DNS layer instead of Raw)
+            spec["sport"] = R.choice([0, 1, 80, 65535, R.randrange(65536)])
+            spec["dport"] = R.choice([0, 1, 443, 65535, R.randrange(65536)])
+        elif R.random() < 0.5:
+            spec["sport"], spec["dport"] = 53, R.choice([40000, 53])
         yield {"stream": st, "syn_mss": R.choice([0, 0, 1460, 5]), "spec": spec}
 
 
